@@ -1159,20 +1159,38 @@ CHECKS = {
 
 
 def replay(prop, path):
+    """Re-execute one saved scenario against the current /repo and re-validate it with TLC."""
     exe = vlib.build_harness()
     blob = json.load(open(path))
+    sc = blob["scenario"]
+    kind = sc.get("kind", "forest")
     d = vlib.workdir("replay")
-    sp = os.path.join(d, "scenario.json")
-    json.dump(blob["scenario"], open(sp, "w"))
     out = os.path.join(d, "trace.ndjson")
-    vlib.run_harness(exe, ["forest-exec", "--scenario", sp, "--out", out])
-    v = vlib.validate_trace(out, nshards=1, tag="replay")
+    flat = True
+    if kind == "forest":
+        sp = os.path.join(d, "scenario.json")
+        json.dump(sc, open(sp, "w"))
+        vlib.run_harness(exe, ["forest-exec", "--scenario", sp, "--out", out])
+        v = vlib.validate_trace(out, nshards=1, tag="replay")
+        flat = False
+    elif kind == "intern":
+        log("interning scenarios are re-driven from their seed: VERIF_SEED=%s ./check C08" % sc.get("seed"))
+        return CHECKS["C08"]("C08", "quick", int(sc.get("seed", 1)))["violations"] and 1 or 0
+    else:
+        sub, module = {"observe": ("observe", "TraceTree"), "parse": ("parse", "TraceParse"), "ser": ("ser", "TraceSer"),
+                       "html": ("html", "TraceHtml"), "build": ("build", "TraceBuild")}[kind]
+        jp = os.path.join(d, "job.ndjson")
+        with open(jp, "w") as f:
+            f.write(json.dumps(sc["job"]) + "\n")
+        vlib.run_harness(exe, [sub, "--jobs", jp, "--out", out])
+        v = vlib.validate_trace_flat(out, module=module + ".tla", cfg=module + ".cfg", nshards=1, tag="replay")
     bad = [r for r in v["rejects"] if r["prop"] == prop and not r["known"]]
     for r in v["rejects"]:
-        log(f"  reject: prop={r['prop']} {r['op']} a={r['a']} res={r['res']} known={r['known']!r} detail={json.dumps(r['detail'])[:300]}")
-    for l in v["lines"][1:]:
-        ev = json.loads(l)
-        log(f"  observed: {ev['op']} a={ev['a']} -> {ev['res']} ret={ev['ret']}")
+        log(f"  reject: prop={r['prop']} {r['op']} known={r['known']!r} detail={json.dumps(r['detail'])[:400]}")
+    if not flat:
+        for l in v["lines"][1:]:
+            ev = json.loads(l)
+            log(f"  observed: {ev['op']} a={ev['a']} -> {ev['res']} ret={ev['ret']}")
     if bad:
         log(f"VIOLATION property={prop} replay={path}")
         return 1
